@@ -10,6 +10,7 @@ CONSTANTS
  KeepT = {TRUE}
  MaxClock = 1000
  MaxGen = 1000
+ HbCoalesce = 0
  FixSubChange = TRUE
  FixHbRefresh = TRUE
  DevHbNoGen = FALSE
@@ -23,6 +24,11 @@ CONSTANTS
  DevNoLaggerDrop = FALSE
  DevNoExpire = FALSE
  DevLaggerSkippedOnExpiry = FALSE
+ DevRestoreSkipsExpired = FALSE
+ DevJoinPutFailDropsMember = FALSE
+ DevMalformedJoinGhost = FALSE
+ DevJoinNewSkipsLoad = FALSE
+ DevJoinIgnoresLoadError = FALSE
  DevSyncRefusesIdle = FALSE
  DevHbWriteUnlocked = FALSE
  DevCleanupWriteUnlocked = FALSE
@@ -30,5 +36,5 @@ CONSTANTS
 INIT Init
 NEXT NextClock
 INVARIANTS EmitSched
-PROPERTIES C12_OnlySubscribed C12_ExactlyOne C12_ReplyFromMap C12_OneMapPerGen C13_StaleRejected C13_StaleNoCommit C13_GenMonotone C13_ReplyGen C14_JoinOK C14_Leader C14_ListOnlyLeader C14_SyncAfterLeader C15_RestoreEqual C15_NotFenced C15_KeepWorking C43_RemovedJustified C43_NoOverdue C43_Rebalances
+PROPERTIES C12_OnlySubscribed C12_ExactlyOne C12_ReplyFromMap C12_OneMapPerGen C13_StaleRejected C13_StaleNoCommit C13_GenMonotone C13_ReplyGen C14_JoinOK C14_Leader C14_ListOnlyLeader C14_SyncAfterLeader C15_RestoreEqual C15_NotFenced C15_ActsOnRestored C15_KeepWorking C43_RemovedJustified C43_NoOverdue C43_Rebalances
 CHECK_DEADLOCK FALSE
